@@ -246,7 +246,13 @@ def generate(rng, tier):
             if not cands:
                 continue
             n = rng.randint(1, max(1, len(cands)))
-            yield {'op': 'shape', 'family': f.name, 'prof': prof, 'n': n, '_tags': [f.kind]}
+            tags = [f.kind]
+            if not f.small_weights and fam_mod.base_vtype(f.vtype) != 'score' and rng.random() < 0.12:
+                # weight regime: counts beyond double precision, or rational counts
+                k = rng.choice([10 ** 18 + 3, 2 ** 53 + 1, 10 ** 30 + 7, Fraction(1, 3), Fraction(5, 2)])
+                prof = fam_mod.scale(prof, k)
+                tags.append('big_weights' if k > 1000 else 'fraction_weights')
+            yield {'op': 'shape', 'family': f.name, 'prof': prof, 'n': n, '_tags': tags}
     # directed: very few votes for many seats (rounded quotas reach 0), ties for the last remainder seat
     for fam in ['lr_hare_rounded', 'lr_hagenbach_bischoff_rounded', 'lr_droop', 'lr_hare', 'qd_droop', 'lr_imperiali_subtract',
                 'qd_imperiali_subtract']:
